@@ -43,6 +43,14 @@ func c01build() {
 				add("OpenClose/"+sit, setup, fsx.Step{K: "OpenClose", P: t, Flag: fl, Perm: 0o640, Data: "W-open"},
 					fsx.Step{K: "ReadFile", P: t}, fsx.Step{K: "Stat", P: t})
 			}
+			// flags beyond the seven everybody uses: O_SYNC asks for nothing a file system without a disk has to do
+			add("OpenClose-sync/"+sit, setup, fsx.Step{K: "OpenClose", P: t, Flag: os.O_WRONLY | os.O_CREATE | os.O_APPEND | os.O_SYNC, Perm: 0o640, Data: "W-sync"}, fsx.Step{K: "ReadFile", P: t},
+				fsx.Step{K: "OpenClose", P: t, Flag: os.O_RDWR | os.O_SYNC, Perm: 0o640, Data: "W2"}, fsx.Step{K: "Stat", P: t})
+			if sit != "missing" && sit != "noparent" && sit != "belowfile" && sit != "nested-missing" {
+				// (existing targets only: with both times omitted Linux's utimensat succeeds without looking for the file at
+				// all, a kernel rule rather than something a file system is to copy)
+				add("Chtimes-both-zero/"+sit, setup, fsx.Step{K: "Chtimes", P: t, MTime: 1234567890}, fsx.Step{K: "Chtimes", P: t, N: 2}, fsx.Step{K: "Stat", P: t})
+			}
 			add("WriteFullFile/"+sit, setup, fsx.Step{K: "WriteFullFile", P: t, Data: "W-full", Perm: 0o600}, fsx.Step{K: "ReadFile", P: t})
 			add("WriteFullFile-empty/"+sit, setup, fsx.Step{K: "WriteFullFile", P: t, Data: "", Perm: 0o644})
 			// a permission argument that carries file-type bits (somebody passed another entry's whole Mode()): like os, only the
@@ -95,6 +103,13 @@ func c01build() {
 			for _, n := range []string{`a\b`, `a:b`, `C:`, `..a`, `a..`, `...`, `a b`, "ü", `\`} {
 				add("unusual-name/"+n, nil, fsx.Step{K: "Mkdir", P: n, Perm: 0o755}, fsx.Step{K: "WriteFullFile", P: n + "/" + n, Data: "x", Perm: 0o644}, fsx.Step{K: "Stat", P: n + "/" + n},
 					fsx.Step{K: "Rename", P: n + "/" + n, P2: "c"}, fsx.Step{K: "Rename", P: "c", P2: n + "/c" + n}, fsx.Step{K: "ReadDir", P: n}, fsx.Step{K: "MkdirAll", P: n + "/" + n + "/" + n, Perm: 0o700}, fsx.Step{K: "RemoveAll", P: n})
+			}
+			// entries whose names begin with a directory's whole name followed by a character that sorts BEFORE the separator
+			// (space ! + , - .): in any ordered index they stand between the directory and its children
+			for _, c := range []string{" ", "!", "+", ",", "-", "."} {
+				sib := "a" + c + "sib"
+				add("sibling-sorting-before-children/"+c, append(append([]fsx.Step(nil), s...), fsx.Step{K: "WriteFullFile", P: sib, Data: "sib", Perm: 0o644}, fsx.Step{K: "Mkdir", P: "a" + c, Perm: 0o755}),
+					fsx.Step{K: "ReadDir", P: "a"}, fsx.Step{K: "ReadDir", P: "a/b"}, fsx.Step{K: "Remove", P: "a"}, fsx.Step{K: "Rename", P: "a", P2: "c"}, fsx.Step{K: "ReadDir", P: "c"}, fsx.Step{K: "ReadFile", P: sib}, fsx.Step{K: "RemoveAll", P: "c"}, fsx.Step{K: "ReadDir", P: "."})
 			}
 			// the longest name an operating system takes (255 bytes) is a name like any other
 			long := strings.Repeat("L", 255)
